@@ -53,7 +53,7 @@ PROPS = {
         "rule": E2E_RULE + SCHED_CONF_RULE + "; for C02 the decisive comparison is per commit: every applied commit event (txid, result, finalized state changes) must be the next index, exactly once, and equal the in-order result and state of that transaction",
         "trusted_base": E2E_TRUST,
         "modelled": ["execute_task / validate / mark_mv_estimate / rewind_validation_to / lock_finality_candidate / run_commit_loop of src/scheduler.rs and src/scheduler/context.rs as Model/Sched.lean: one action per shared-memory access, worker control state attached to the transaction it holds the lock of (any number of workers)", "choice of which transaction a worker claims, and the vcur pre-filter of finality, are over-approximated (arbitrary / dropped)", "beneficiary history reads are not part of this model (C07)"],
-        "assumptions": ["reads with no preceding MV entry return the block-start value (monitored assumption 7 of DESIGN.md)", "determinism of a transaction as a function of the values it reads"],
+        "assumptions": ["a read that misses the MV memory reads the committed cache in a LATER step (action execFetch): it returns the value of the latest committed writer below the commit cursor at that moment, or the block-start value (modelled; exercised: such racing reads occur about once per 10,000 traces)", "determinism of a transaction as a function of the values it reads"],
         "explanation": "Theorems finalized_exact, commit_prefix, commit_once, finality_is_final, stale_validation_never_final, execute_ok over ALL reachable states of the pipeline model (any block, any number of workers, any interleaving), proved by five inductive invariant groups incl. the timestamp invariant I1'.",
     },
     "C03": {
